@@ -310,6 +310,28 @@ def large_mesh_cases(draw):
     return out
 
 
+@st.composite
+def declared_edge_dimension_cases(draw):
+    """The mesh variable declares an edge dimension, but no variable of the dataset uses it (no
+    edge tables, no edge coordinates): every edge table is derived, the edge count too.  Meshes
+    with deleted cells (holes, several components) and with nodes that no face uses."""
+    m = draw(S.abstract_mesh(max_j=3, max_i=4, allow_bowtie=False, allow_delete=True))
+    mesh = {"nodes": m["nodes"], "faces": m["faces"], "invalid": [],
+            "edges": specs.mesh_edges(m["faces"])}
+    out = {"mesh": mesh}
+    for tag in ("a", "b"):
+        supply = draw(st.sampled_from([[], ["face_face"]]))
+        enc = draw(S.ugrid_encoding(supply=supply))
+        enc["edge_dim_attr"] = True
+        enc["edge_coords"] = False
+        enc["transposed"] = [t for t in enc["transposed"] if t in ("face_node", "face_face")]
+        out["enc_" + tag] = enc
+        out["mode_" + tag] = draw(st.sampled_from(["raw", "raw", "decoded"]))
+    out["order"] = list(draw(st.permutations(
+        ["edge_node_array", "face_edge_array", "edge_face_array", "face_face_array"])))
+    return out
+
+
 def strategy(tier):
     return cases()
 
@@ -321,6 +343,8 @@ def start_index_strategy(tier):
 SUBS = [
     Sub("two_encodings", strategy, check_case, quick=250, thorough=1500),
     Sub("start_index_attribute", start_index_strategy, check_start_index, quick=30, thorough=100),
+    Sub("declared_edge_dimension_without_variables", lambda tier: declared_edge_dimension_cases(),
+        check_case, quick=40, thorough=250),
     Sub("large_strip_meshes", lambda tier: large_mesh_cases(), check_case, quick=6, thorough=40),
 ]
 MATCHERS = {}
